@@ -212,6 +212,30 @@ def ad(f, x):
     return out.v, out.d
 
 
+class ImplRaised(Exception):
+    """the routine under test raised on ordinary (float / int ndarray, list) inputs: a violation"""
+
+
+class NotApplicable(Exception):
+    """the exact reference could not be formed because prysm's value routine does not accept the harness's
+    polynomial / dual-number / Fraction objects (e.g. after a refactor that forces a float dtype): not a violation;
+    the case is then covered by the model correspondence only and counted as 'exact-reference-not-applicable'"""
+
+
+def I(fn, *a, **k):
+    """call the implementation on ordinary inputs"""
+    try:
+        return fn(*a, **k)
+    except Exception as ex:
+        raise ImplRaised(f'raised {type(ex).__name__}: {ex}')
+
+
+def clear_abc_cache(J):
+    f = getattr(getattr(J, 'recurrence_abc', None), 'cache_clear', None)
+    if f is not None:
+        f()
+
+
 def _impl():
     from prysm import polynomials as P
     qp = importlib.import_module('prysm.polynomials.qpoly')
@@ -226,7 +250,7 @@ def fr(v):
 def value_poly(kind, n, params=()):
     """the value routine `kind` of order n run on the indeterminate -> QP"""
     P, qp, J = _impl()
-    J.recurrence_abc.cache_clear()
+    clear_abc_cache(J)
     try:
         if kind == 'jac':
             a, b = params
@@ -252,7 +276,7 @@ def value_poly(kind, n, params=()):
             m, t, norm = params
             return QP.lift(P.zernike_nm(n, m, X, t, norm=norm))
     finally:
-        J.recurrence_abc.cache_clear()
+        clear_abc_cache(J)
     raise C.ToolError(kind)
 
 
@@ -493,17 +517,213 @@ def alias_cases(rng, count):
     return out
 
 
+
+# ------------------------------------------------------------------------------------------------
+# argument forms: coordinate dtypes / ranks / scalars, caller-supplied `alphas` buffers
+# ------------------------------------------------------------------------------------------------
+FORMS = ['i64', 'i32', 'f32', '0d', '2d', '3d', 'f64-strided']
+SCALAR_FORMS = ['pyfloat', 'pyint', 'npfloat']          # only for the routines whose docstring promises scalars (Hermite)
+FORM_ROUTINES = ['fam', 'famseq', 'jder', 'qbfsder', 'q2dder', 'zzqbfs', 'zzqcon', 'zzq2d', 'zern', 'zernseq']
+
+
+def form_points(case):
+    """float64 reference coordinates (1-D) for the routine of the case; integer-valued when the form needs it"""
+    rt, form = case['routine'], case['form']
+    integral = form in ('i64', 'i32', 'pyint')
+    kind = case.get('kind', 'jac')
+    if rt in ('fam', 'famseq', 'jder'):
+        if integral:
+            pts = {'lag': [0, 1, 2], 'he': [-1, 0, 2], 'h': [-1, 0, 2]}.get(kind, [-1, 0, 1])
+        else:
+            pts = case['pts']
+    elif integral:
+        pts = [0, 1, 1]
+    else:
+        pts = case['upts']
+    return np.array(pts, dtype=float)
+
+
+def as_form(v, form):
+    v = np.asarray(v, dtype=float)
+    if form == 'i64':
+        return v.astype(np.int64)
+    if form == 'i32':
+        return v.astype(np.int32)
+    if form == 'f32':
+        return v.astype(np.float32)
+    if form == '0d':
+        return np.array(v.ravel()[0])
+    if form == '2d':
+        return np.stack([v, v[::-1]])
+    if form == '3d':
+        return np.stack([v, v[::-1]]).reshape(2, 1, v.size)
+    if form == 'f64-strided':
+        big = np.zeros(2 * v.size)
+        big[::2] = v
+        return big[::2]
+    if form == 'pyfloat':
+        return float(v.ravel()[0])
+    if form == 'pyint':
+        return int(v.ravel()[0])
+    if form == 'npfloat':
+        return np.float64(v.ravel()[0])
+    raise C.ToolError(form)
+
+
+def ref_form(v, form):
+    """the float64 ndarray with the same logical content / shape as as_form(v, form)"""
+    v = np.asarray(v, dtype=float)
+    if form in ('0d', 'pyfloat', 'pyint', 'npfloat'):
+        return np.array(v.ravel()[0])
+    if form == '2d':
+        return np.stack([v, v[::-1]])
+    if form == '3d':
+        return np.stack([v, v[::-1]]).reshape(2, 1, v.size)
+    return v.copy()
+
+
+def form_call(case, P, qp, J):
+    """fn(coords...) for the routine of the case; coords is (x,) or (r, t)"""
+    rt = case['routine']
+    cs, cs2, j, m = case['cs'], case['cs2'], case['j'], case['m']
+    if rt == 'fam':
+        return lambda x: fam_der(P, case['kind'], case['n'], tuple(case['params']), x), 1
+    if rt == 'famseq':
+        return lambda x: getattr(P, FAM_SEQ[case['kind']])(case['ns'], *case['params'], x), 1
+    if rt == 'jder':
+        return lambda x: J.jacobi_sum_clenshaw_der(cs, case['alpha'], case['beta'], x, j=j), 1
+    if rt == 'qbfsder':
+        return lambda u: qp.clenshaw_qbfs_der(cs, u * u, j=j), 1
+    if rt == 'q2dder':
+        return lambda u: qp.clenshaw_q2d_der(cs, m, u * u, j=j), 1
+    if rt == 'zzqbfs':
+        return lambda u: np.array(qp.compute_z_zprime_Qbfs(cs, u, u * u)), 1
+    if rt == 'zzqcon':
+        return lambda u: np.array(qp.compute_z_zprime_Qcon(cs, u, u * u)), 1
+    if rt == 'zzq2d':
+        pad = [[] for _ in range(m - 1)]
+        cm0 = None if case.get('cm0_none') else cs
+        return lambda u, t: np.array(qp.compute_z_zprime_Q2d(cm0, pad + [cs2], pad + [cs], u, t)), 2
+    if rt == 'zern':
+        return lambda r, t: np.array(P.zernike_nm_der(case['zn'], case['zm'], r, t, norm=case['norm'])), 2
+    if rt == 'zernseq':
+        return lambda r, t: np.array(P.zernike_nm_der_seq([tuple(q) for q in case['nms']], r, t, norm=case['norm'])), 2
+    raise C.ToolError(rt)
+
+
+def pred_forms(case):
+    """(coords) the routine on int / float32 / 0-d / 2-D / scalar coordinates must return what it returns on the float64
+    array with the same values;  (buffer) with a caller-supplied `alphas` buffer, zeroed or dirty, the routine must return
+    the same table as without one and leave it in the buffer"""
+    P, qp, J = _impl()
+    if case['item'] == 'buffer':
+        rt, cs, j, m = case['routine'], case['cs'], case['j'], case['m']
+        x = np.array(case['pts'] if rt == 'jder' else case['upts'], dtype=float)
+        if case.get('rank2'):
+            x = np.stack([x, x[::-1]])
+        if rt == 'jder':
+            fn = lambda **kw: J.jacobi_sum_clenshaw_der(cs, case['alpha'], case['beta'], x, j=j, **kw)   # noqa: E731
+        elif rt == 'qbfsder':
+            fn = lambda **kw: qp.clenshaw_qbfs_der(cs, x * x, j=j, **kw)                                  # noqa: E731
+        elif rt == 'q2dder':
+            fn = lambda **kw: qp.clenshaw_q2d_der(cs, m, x * x, j=j, **kw)                                # noqa: E731
+        elif rt == 'jsum':
+            fn = lambda **kw: J.jacobi_sum_clenshaw(cs, case['alpha'], case['beta'], x, **kw)             # noqa: E731
+        elif rt == 'qbfs':
+            fn = lambda **kw: qp.clenshaw_qbfs(cs, x * x, **kw)                                           # noqa: E731
+        elif rt == 'q2dalphas':
+            fn = lambda **kw: qp.clenshaw_q2d(cs, m, x * x, **kw)                                         # noqa: E731
+        else:
+            raise C.ToolError(rt)
+        exp = np.array(fn(), dtype=float)
+        shape = ((j + 1, len(cs), *x.shape) if rt in ('jder', 'qbfsder', 'q2dder') else (len(cs), *x.shape))
+        buf = np.full(shape, 7.25 if case['fill'] == 'dirty' else 0.0)
+        got = np.array(fn(alphas=buf), dtype=float)
+        sc = float(np.max(np.abs(exp))) if exp.size else 0.0
+        if got.shape != exp.shape or not close(got, exp, extra_scale=sc):
+            return False, (f'{rt} with a {case["fill"]} caller-supplied alphas buffer returns {np.ravel(got)[:4]}; '
+                           f'without a buffer {np.ravel(exp)[:4]}')
+        if rt in ('jder', 'qbfsder', 'q2dder', 'q2dalphas'):      # these return the table itself
+            if not close(buf, exp, extra_scale=sc):
+                return False, f'{rt}: the documented alphas buffer was not filled with the table (buffer {np.ravel(buf)[:4]}, table {np.ravel(exp)[:4]})'
+        else:                                                      # the value sweeps return alphas[0] / the surface
+            al = np.array(buf, dtype=float)
+            if rt == 'jsum' and not close(al[0], exp, extra_scale=sc):
+                return False, 'jsum: alphas[0] of the supplied buffer is not the returned sum'
+        return True, ''
+    fn, ncoord = form_call(case, P, qp, J)
+    form = case['form']
+    v = form_points(case)
+    tv = np.array(case['tpts'], dtype=float)[:v.size]
+    if form in ('i64', 'i32', 'pyint'):
+        tv = np.round(tv)
+    coords = [v] if ncoord == 1 else [v, tv]
+    exp = np.array(fn(*[ref_form(c, form) for c in coords]), dtype=float)
+    got = np.array(fn(*[as_form(c, form) for c in coords]), dtype=float)
+    tol = 1e-4 if form == 'f32' else TOL
+    sc = float(np.max(np.abs(exp))) if exp.size else 0.0
+    if got.shape != exp.shape:
+        return False, f'{case["routine"]} on {form} coordinates: shape {got.shape}, on the float64 array {exp.shape}'
+    if not close(got, exp, tol, extra_scale=sc):
+        return False, (f'{case["routine"]} on {form} coordinates {np.ravel(as_form(v, form))[:3] if form not in SCALAR_FORMS else as_form(v, form)}: '
+                       f'{np.ravel(got)[:4]}; on the float64 array with the same values: {np.ravel(exp)[:4]}')
+    return True, ''
+
+
+def form_cases(rng, count, thorough=False):
+    kinds = [('he', ()), ('h', ()), ('lag', (0.5,)), ('jac', (0.5, 1.5)), ('jac', (0.0, 0.0)), ('legendre', ()), ('cheby1', ()),
+             ('cheby2', ()), ('cheby3', ()), ('cheby4', ())]
+    out = []
+    i = 0
+    while len(out) < count:
+        rt = FORM_ROUTINES[i % len(FORM_ROUTINES)]
+        kind, params = kinds[(i // len(FORM_ROUTINES)) % len(kinds)]
+        allowed = FORMS + (SCALAR_FORMS if (rt in ('fam', 'famseq') and kind in ('he', 'h')) else [])
+        form = allowed[(i // 3) % len(allowed)]
+        n = int(rng.integers(1, 6))
+        cs = [float(int(v)) / 2 for v in rng.integers(-6, 7, n)]
+        if not any(cs):
+            cs[-1] = 1.0
+        a, b = AB[i % len(AB)]
+        zn = int(rng.integers(0, 7))
+        zm = int(rng.choice(range(-zn, zn + 1, 2)))
+        case = {'item': 'coords', 'routine': rt, 'form': form, 'kind': kind, 'params': list(params), 'n': int(rng.integers(0, 9)),
+                'ns': [[0, 1, 2, 3], [1, 4], [0], [2, 3, 7], [0, 5, 6]][i % 5], 'cs': cs,
+                'cs2': [float(int(v)) / 2 for v in rng.integers(-6, 7, int(rng.integers(1, 6)))],
+                'alpha': a, 'beta': b, 'j': 1 + (i // 7) % 3, 'm': 1 + (i // 5) % 3, 'zn': zn, 'zm': zm, 'norm': bool(i % 2),
+                'nms': [[2, 0], [1, 1], [3, -1], [2, -2]][: 1 + i % 4], 'cm0_none': bool(rt == 'zzq2d' and i % 4 == 0),
+                'pts': [float(v) for v in (rng.uniform(0.05, 2.5, 3) if kind == 'lag' else rng.uniform(-0.9, 0.9, 3))],
+                'upts': [float(v) for v in rng.uniform(0.05, 0.95, 3)], 'tpts': [float(v) for v in rng.uniform(0, 6, 3)]}
+        out.append(case)
+        i += 1
+    return out
+
+
+def buffer_cases(rng, count):
+    out = []
+    for i in range(count):
+        rt = ['jder', 'qbfsder', 'q2dder', 'jsum', 'qbfs', 'q2dalphas'][i % 6]
+        n = int(rng.integers(1, 7))
+        a, b = AB[i % len(AB)]
+        out.append({'item': 'buffer', 'routine': rt, 'fill': ['dirty', 'zero'][(i // 6) % 2], 'cs': [float(v) for v in rng.uniform(-1, 1, n)],
+                    'j': 1 + (i // 3) % 4, 'm': 1 + (i // 5) % 3, 'alpha': a, 'beta': b, 'rank2': bool((i // 12) % 2),
+                    'pts': [float(v) for v in rng.uniform(-0.9, 0.9, 2)], 'upts': [float(v) for v in rng.uniform(0.05, 0.95, 2)]})
+    return out
+
+
 def pred(case):
     """(ok, detail): is the derivative routine the formal derivative of the value routine on this input?"""
     P, qp, J = _impl()
     it = case['item']
     try:
         if it == 'alias':
-            return pred_alias(case)
+            return I(pred_alias, case)
+        if it in ('coords', 'buffer'):
+            return I(pred_forms, case)
         if it == 'jder':
             s, a, b, j = case['s'], case['alpha'], case['beta'], case['j']
             x = np.asarray(case['x'], dtype=float)
-            al = J.jacobi_sum_clenshaw_der(s, a, b, x, j=j)
+            al = I(J.jacobi_sum_clenshaw_der, s, a, b, x, j=j)
             tot = QP([0])
             for n, c in enumerate(s):
                 if c:
@@ -517,7 +737,7 @@ def pred(case):
         if it == 'qbfsder':
             cs, j = case['cs'], case['j']
             u = np.asarray(case['u'], dtype=float)
-            al = qp.clenshaw_qbfs_der(cs, u * u, j=j)
+            al = I(qp.clenshaw_qbfs_der, cs, u * u, j=j)
             S = qbfs_S_poly(qp, cs)
             for jj in range(j + 1):
                 exp = np.array([float(S.deriv(jj)(fr(v) * fr(v))) for v in u.ravel()])
@@ -529,7 +749,7 @@ def pred(case):
         if it == 'q2dder':
             cs, m, j = case['cs'], case['m'], case['j']
             u = np.asarray(case['u'], dtype=float)
-            al = qp.clenshaw_q2d_der(cs, m, u * u, j=j)
+            al = I(qp.clenshaw_q2d_der, cs, m, u * u, j=j)
             S = q2d_S_poly(cs, m)
             for jj in range(j + 1):
                 exp = np.array([float(S.deriv(jj)(fr(v) * fr(v))) for v in u.ravel()])
@@ -541,41 +761,41 @@ def pred(case):
         if it == 'fam':
             kind, n, params = case['kind'], case['n'], tuple(case['params'])
             x = np.asarray(case['x'], dtype=float)
-            got = np.asarray(fam_der(P, kind, n, params, x), dtype=float)
+            got = np.asarray(I(fam_der, P, kind, n, params, x), dtype=float)
             dp = value_poly(kind, n, params).deriv()
             exp = np.array([float(dp(v)) for v in x.ravel()]).reshape(x.shape)
             return (got.shape == x.shape and close(got, exp)), f'{FAM_DER[kind]}({n})={got.ravel()[:3]} formal derivative={exp.ravel()[:3]}'
         if it == 'famseq':
             kind, ns, params = case['kind'], case['ns'], tuple(case['params'])
             x = np.asarray(case['x'], dtype=float)
-            got = np.asarray(getattr(P, FAM_SEQ[kind])(ns, *params, x), dtype=float)
-            exp = np.asarray([fam_der(P, kind, n, params, x) for n in ns], dtype=float)
+            got = np.asarray(I(getattr(P, FAM_SEQ[kind]), ns, *params, x), dtype=float)
+            exp = np.asarray([I(fam_der, P, kind, n, params, x) for n in ns], dtype=float)
             ok = got.shape == (len(ns), *x.shape) and close(got, exp)
             return ok, f'{FAM_SEQ[kind]}({ns}) shape {got.shape} differs from one-at-a-time evaluation'
         if it == 'zern':
             n, m, norm = case['n'], case['m'], case['norm']
             r = np.asarray(case['r'], dtype=float)
             t = np.asarray(case['t'], dtype=float)
-            dr, dt = P.zernike_nm_der(n, m, r, t, norm=norm)
+            dr, dt = I(P.zernike_nm_der, n, m, r, t, norm=norm)
             edr = np.array([float(value_poly('zern', n, (m, float(tv), norm)).deriv()(rv)) for rv, tv in zip(r.ravel(), t.ravel())])
             if m == 0:
                 edt = np.zeros(r.size)
             else:
-                edt = (-m) * np.asarray(P.zernike_nm(n, -m, r, t, norm=norm), dtype=float).ravel()
+                edt = (-m) * np.asarray(I(P.zernike_nm, n, -m, r, t, norm=norm), dtype=float).ravel()
             ok = close(np.ravel(dr), edr) and close(np.ravel(dt), edt)
             return ok, f'dr={np.ravel(dr)[:3]} formal={edr[:3]} dt={np.ravel(dt)[:3]} expected={edt[:3]}'
         if it == 'zernseq':
             nms = [tuple(p) for p in case['nms']]
             r = np.asarray(case['r'], dtype=float)
             t = np.asarray(case['t'], dtype=float)
-            got = np.asarray(P.zernike_nm_der_seq(nms, r, t, norm=case['norm']), dtype=float)
-            exp = np.asarray([P.zernike_nm_der(n, m, r, t, norm=case['norm']) for n, m in nms], dtype=float)
+            got = np.asarray(I(P.zernike_nm_der_seq, nms, r, t, norm=case['norm']), dtype=float)
+            exp = np.asarray([I(P.zernike_nm_der, n, m, r, t, norm=case['norm']) for n, m in nms], dtype=float)
             return (got.shape == exp.shape and close(got, exp)), 'zernike_nm_der_seq differs from one-at-a-time evaluation'
         if it in ('zzqbfs', 'zzqcon'):
             cs = case['cs']
             u = np.asarray(case['u'], dtype=float)
             fn = qp.compute_z_zprime_Qbfs if it == 'zzqbfs' else qp.compute_z_zprime_Qcon
-            S, Sp = fn(cs, u, u * u)
+            S, Sp = I(fn, cs, u, u * u)
             tot = QP([0])
             for n, c in enumerate(cs):
                 if c:
@@ -587,7 +807,7 @@ def pred(case):
         if it == 'zzq2d':
             u = np.asarray(case['u'], dtype=float)
             t = np.asarray(case['t'], dtype=float)
-            z, dr, dt = qp.compute_z_zprime_Q2d(case['cm0'], case['ams'], case['bms'], u, t)
+            z, dr, dt = I(qp.compute_z_zprime_Q2d, case['cm0'], case['ams'], case['bms'], u, t)
             ez, edr, edt = [], [], []
             for uv, tv in zip(u.ravel(), t.ravel()):
                 zp, dtp = q2d_sag_poly(case['cm0'], case['ams'], case['bms'], float(tv))
@@ -601,8 +821,12 @@ def pred(case):
             return pred_surface(case)
     except C.ToolError:
         raise
-    except Exception as ex:
-        return False, f'raised {type(ex).__name__}: {ex}'
+    except ImplRaised as ex:
+        return False, str(ex)
+    except NotApplicable:
+        raise
+    except Exception as ex:       # raised while forming the exact reference on polynomial / dual-number objects
+        raise NotApplicable(f'{it}: {type(ex).__name__}: {ex}')
     raise C.ToolError(f'unknown item {it}')
 
 
@@ -635,25 +859,25 @@ def pred_surface(case):
     if it == 'sconic':
         rho = np.asarray(case['rho'], dtype=float)
         if case.get('sphere'):
-            got = S.sphere_sag_der(c, rho)
+            got = I(S.sphere_sag_der, c, rho)
             exp = [ad(lambda r: S.sphere_sag(c, r * r), v)[1] for v in rho]
             name = 'sphere_sag_der'
         else:
-            got = S.conic_sag_der(c, k, rho)
+            got = I(S.conic_sag_der, c, k, rho)
             exp = [ad(lambda r: S.conic_sag(c, k, r * r), v)[1] for v in rho]
             name = 'conic_sag_der'
         return close(got, exp), f'{name}={np.ravel(got)[:3]} derivative of the sag={np.asarray(exp)[:3]}'
     if it == 'sdircos':
         rho = np.asarray(case['rho'], dtype=float)
-        got = S.der_direction_cosine_spheroid(c, k, rho)
+        got = I(S.der_direction_cosine_spheroid, c, k, rho)
         exp = [ad(lambda r: 1 / S.phi_spheroid(c, k, r * r), v)[1] for v in rho]
         return close(got, exp), f'der_direction_cosine_spheroid={np.ravel(got)[:3]} derivative of 1/phi={np.asarray(exp)[:3]}'
     r = np.asarray(case['r'], dtype=float)
     t = np.asarray(case['t'], dtype=float)
     dx, dy = case['dx'], case['dy']
     if it == 'soac':
-        dr, dt = S.off_axis_conic_der(c, k, r, t, dx, dy)
-        sr, st = S.off_axis_conic_sigma_der(c, k, r, t, dx, dy)
+        dr, dt = I(S.off_axis_conic_der, c, k, r, t, dx, dy)
+        sr, st = I(S.off_axis_conic_sigma_der, c, k, r, t, dx, dy)
         edr = [ad(lambda q: S.off_axis_conic_sag(c, k, q, tv, dx, dy), rv)[1] for rv, tv in zip(r, t)]
         edt = [ad(lambda q: S.off_axis_conic_sag(c, k, rv, q, dx, dy), tv)[1] for rv, tv in zip(r, t)]
         esr = [ad(lambda q: 1 / S.off_axis_conic_sigma(c, k, q, tv, dx, dy), rv)[1] for rv, tv in zip(r, t)]
@@ -664,7 +888,7 @@ def pred_surface(case):
     if it == 'sq2d':
         Rn = case['R']
         x, y = (r * np.cos(t))[None, :], (r * np.sin(t))[None, :]
-        z, zr, zt = S.Q2d_and_der(case['cm0'], case['ams'], case['bms'], x, y, Rn, c, k, dx, dy)
+        z, zr, zt = I(S.Q2d_and_der, case['cm0'], case['ams'], case['bms'], x, y, Rn, c, k, dx, dy)
 
         def val(rv, tv):
             return q2d_value(qp, case['cm0'], case['ams'], case['bms'], rv / Rn, tv) / S.off_axis_conic_sigma(c, k, rv, tv, dx, dy) \
@@ -676,6 +900,18 @@ def pred_surface(case):
         return ok, (f'Q2d_and_der=({np.ravel(z)[:2]}, {np.ravel(zr)[:2]}, {np.ravel(zt)[:2]}) sag and its derivatives='
                     f'({np.asarray(ez)[:2]}, {np.asarray(ezr)[:2]}, {np.asarray(ezt)[:2]})')
     raise C.ToolError(it)
+
+
+def pred_safe(case, ctx=None):
+    """pred, with 'the exact reference could not be formed on the harness's exotic objects' turned into a note"""
+    try:
+        return pred(case)
+    except NotApplicable as ex:
+        if ctx is not None:
+            ctx.filtered_known['exact-reference-not-applicable'] += 1
+            if len(ctx.notes) < 5:
+                ctx.notes.append(f'exact reference not applicable ({ex}); case covered by the model correspondence only')
+        return True, f'not evaluated: {ex}'
 
 
 # ------------------------------------------------------------------------------------------------
@@ -749,7 +985,7 @@ def correspondence(ctx):
     rng = ctx.rng
     for case in corpus_cases():     # minimised inputs that failed on the pinned tree: always run first
         ctx.case(case['item'], case, nontrivial=True, tag='corpus')
-        ok_, detail_ = pred(case)
+        ok_, detail_ = pred_safe(case, ctx)
         if not ok_:
             ctx.pred_fail(case['item'], case, detail_)
     nmax = ctx.scale(10, 12)
@@ -762,7 +998,7 @@ def correspondence(ctx):
         todo.append(fn)
 
     def run_pred(item, case):
-        ok, detail = pred(case)
+        ok, detail = pred_safe(case, ctx)
         if not ok:
             ctx.pred_fail(item, case, detail)
 
@@ -801,7 +1037,7 @@ def correspondence(ctx):
                 add(f'{"q" if exact else "f"} jder {j} {w(a)} {w(b)} {w(xv)} {wl(s, w)}', chk)
 
     # exact: Fraction object arrays through prysm's own code
-    J.recurrence_abc.cache_clear()
+    clear_abc_cache(J)
     for ci, (n, kind, pos) in enumerate(coef_cases(rng, ctx.scale(7, 10))):
         j = 1 + ci % 4
         s = [Fraction(int(round(v * 12)), 12) for v in coef_vector(rng, n, kind, pos)]
@@ -820,9 +1056,10 @@ def correspondence(ctx):
                 rows, formal = rep.split('|')
                 mt = [Fraction(v) for v in rows.split()]
                 mf = [Fraction(v) for v in formal.split()]
-                if isinstance(tab, str):
-                    ctx.disagree('jder-exact', case, tab, 'table')
-                    ctx.pred_fail('jder-exact', case, tab)
+                if isinstance(tab, str):       # prysm does not run on Fraction object arrays (any more): exact stream not applicable
+                    ctx.filtered_known['exact-stream-not-applicable'] += 1
+                    if len(ctx.notes) < 5:
+                        ctx.notes.append(f'jder-exact not applicable: {tab}')
                     return
                 for jj in range(j + 1):
                     for i in range(n):
@@ -833,7 +1070,7 @@ def correspondence(ctx):
                         ctx.pred_fail('jder-exact', case, f'alphas[{jj}][0] = {tab[jj][0][k]} but the {jj}-th derivative of the sum is {mf[jj]}')
                         return
             add(f'q jder {j} {C.q2w(a)} {C.q2w(b)} {C.q2w(xv)} {wl(s, C.q2w)}', chk)
-    J.recurrence_abc.cache_clear()
+    clear_abc_cache(J)
 
     # ------------------------------------------------ clenshaw_qbfs_der / clenshaw_q2d_der
     for ci, (n, kind, pos) in enumerate(cc * ctx.scale(5, 24)):
@@ -909,8 +1146,8 @@ def correspondence(ctx):
     orders = list(range(0, ctx.scale(17, 31)))
     for fi, (kind, params) in enumerate(fams):
         lo, hi = (0.05, 3.0) if kind == 'lag' else (-1.5, 1.5) if kind in ('he', 'h') else (-0.95, 0.95)
-        for n in orders:
-            if not ctx.thorough and n > 6 and (n + fi) % 3:
+        for n in list(orders) + ([] if ctx.thorough else [20, 25, 30]):
+            if not ctx.thorough and 6 < n < 20 and (n + fi) % 3:
                 continue
             x = rng.uniform(lo, hi, (2, 2) if n % 2 else 3)
             case = {'item': 'fam', 'kind': kind, 'n': n, 'params': list(params), 'x': x.tolist()}
@@ -934,7 +1171,8 @@ def correspondence(ctx):
                             ctx.disagree('fam', case, 'model closed form', f'{der} != model formal derivative {formal}', 'model self-check')
                     add(f'{"q" if exact else "f"} fam {mk} {n} ' + ' '.join(w(p) for p in mp) + (' ' if mp else '') + w(xv), chk)
         # sequence forms: gapped / not starting at 0 / singleton / contiguous
-        for ns in ([0, 1, 2, 3, 4], [0], [1], [2, 5, 9], [0, 3], [1, 2, 7, 8, 12], [4], [0, 1], [3, 4, 5, 6]):
+        for ns in ([0, 1, 2, 3, 4], [0], [1], [2, 5, 9], [0, 3], [1, 2, 7, 8, 12], [4], [0, 1], [3, 4, 5, 6], [0, 13, 20, 25],
+                   [14, 15, 16], [2, 3], [3], [11, 22, 30] if ctx.thorough else [17, 24]):
             x = rng.uniform(lo, hi, 5) if kind.startswith('cheby') else rng.uniform(lo, hi, (2, 3))
             case = {'item': 'famseq', 'kind': kind, 'ns': ns, 'params': list(params), 'x': x.tolist()}
             ctx.case('famseq', case, nontrivial=True, tag=f'{kind}/{"start0" if ns[0] == 0 else "start1" if ns[0] == 1 else "start2+"}')
@@ -953,10 +1191,15 @@ def correspondence(ctx):
             for k, xv in enumerate(xs):
                 def chk(rep, case=case, got=got, k=k):
                     der, formal, _ = (Fraction(v) for v in rep.split())
-                    if isinstance(got, str) or got[k] != der:
+                    if isinstance(got, str):
+                        ctx.filtered_known['exact-stream-not-applicable'] += 1
+                        if len(ctx.notes) < 5:
+                            ctx.notes.append(f'fam-exact not applicable: {got}')
+                        return
+                    if got[k] != der:
                         ctx.disagree('fam-exact', case, str(got if isinstance(got, str) else got[k]), str(der))
-                    if isinstance(got, str) or got[k] != formal:
-                        ctx.pred_fail('fam-exact', case, f'{got if isinstance(got, str) else got[k]} is not the derivative {formal}')
+                    if got[k] != formal:
+                        ctx.pred_fail('fam-exact', case, f'{got[k]} is not the derivative {formal}')
                 add(f'q fam {kind} {n} {C.q2w(xv)}', chk)
 
     # ------------------------------------------------ Zernike
@@ -1159,6 +1402,14 @@ def correspondence(ctx):
         ctx.case('alias', case, nontrivial=True, tag=f'{case["path"]}/{case["container"]}')
         run_pred('alias', case)
 
+    # ------------------------------------------------ coordinate dtypes / ranks / scalars; caller-supplied alphas buffers
+    for case in form_cases(rng, ctx.scale(500, 5000)):
+        ctx.case('coords', case, nontrivial=True, tag=f'{case["routine"]}/{case["form"]}')
+        run_pred('coords', case)
+    for case in buffer_cases(rng, ctx.scale(120, 1200)):
+        ctx.case('buffer', case, nontrivial=True, tag=f'{case["routine"]}/{case["fill"]}')
+        run_pred('buffer', case)
+
     # ------------------------------------------------ conic base surfaces and Q2d_and_der (x/raytracing/surfaces.py)
     S = _surf()
     kappas = [-2.5, -1.0, -0.7, 0.0, 0.6, 1.3]
@@ -1311,11 +1562,11 @@ def search(ctx, hints):
     import os
     for path in sorted(glob.glob(os.path.join(C.VERIF, 'corpus', 'C09', '*.json'))):
         case = json.load(open(path))
-        ok, detail = pred(case)
+        ok, detail = pred_safe(case)
         if not ok:
             return {'item': case['item'], 'input': case, 'detail': detail}
     for case in _small_cases():
-        ok, detail = pred(case)
+        ok, detail = pred_safe(case)
         if not ok:
             return {'item': case['item'], 'input': case, 'detail': detail}
     rng = np.random.Generator(np.random.PCG64(ctx.seed + 2000))
@@ -1328,12 +1579,12 @@ def search(ctx, hints):
                      {'item': 'qbfsder', 'cs': s, 'u': [0.4, 0.9], 'j': j},
                      {'item': 'q2dder', 'cs': s, 'm': int(rng.integers(1, 5)), 'u': [0.4, 0.9], 'j': j},
                      {'item': 'zzqbfs', 'cs': s, 'u': [0.4, 0.9]}, {'item': 'zzqcon', 'cs': s, 'u': [0.4, 0.9]}):
-            ok, detail = pred(case)
+            ok, detail = pred_safe(case)
             if not ok:
                 return {'item': case['item'], 'input': case, 'detail': detail}
         cm0, ams, bms = q2d_content(rng, ['cos', 'sin', 'mixed', 'holes', 'ragged', 'm1long', 'len1'][int(rng.integers(7))], 3, 5)
         case = {'item': 'zzq2d', 'cm0': cm0, 'ams': ams, 'bms': bms, 'u': [0.45], 't': [1.1]}
-        ok, detail = pred(case)
+        ok, detail = pred_safe(case)
         if not ok:
             return {'item': 'zzq2d', 'input': case, 'detail': detail}
     return None
@@ -1346,7 +1597,7 @@ def replay(inp):
         s = [Fraction(v) for v in case['s']]
         xs = [Fraction(v) for v in case['x']]
         a, b, j = Fraction(case['alpha']), Fraction(case['beta']), case['j']
-        J.recurrence_abc.cache_clear()
+        clear_abc_cache(J)
         try:
             tab = J.jacobi_sum_clenshaw_der(s, a, b, np.array(xs, dtype=object), j=j)
             tot = QP([0])
@@ -1363,7 +1614,7 @@ def replay(inp):
             print('raised', ex)
             return True
         finally:
-            J.recurrence_abc.cache_clear()
+            clear_abc_cache(J)
     if case['item'] == 'fam-exact':
         fn = P.hermite_He_der if case['kind'] == 'he' else P.hermite_H_der
         xs = [Fraction(v) for v in case['x']]
@@ -1376,8 +1627,8 @@ def replay(inp):
         except Exception as ex:
             print('raised', ex)
             return True
-    ok, detail = pred(case)
-    print('replaying', case['item'], '->', 'property holds' if ok else f'VIOLATED: {detail}')
+    ok, detail = pred_safe(case)
+    print('replaying', case['item'], '->', ('property holds' if not detail else detail) if ok else f'VIOLATED: {detail}')
     return not ok
 
 
